@@ -4,7 +4,7 @@ from .. import forest as FO
 
 ID = "C11"
 LEAN_MODULE = "Ucfg.Props.C11"
-LEVEL_TEXT = 'A merge source is only read (copy theorem); other reads are pure by construction of the functional model. PARTIAL: the schedule quantifier cannot be modelled - decided by fingerprints before/after every read and by concurrent readers on the -race build.'
+LEVEL_TEXT = 'A merge source is only read (one copy: merge_source_only_read; Merge as a whole: whole_merge_only_reads_source, from the C10 frame theorem); other reads are pure by construction of the functional model. PARTIAL: the schedule quantifier cannot be modelled - decided by fingerprints before/after every read and by concurrent readers on the -race build.'
 CORRESPONDENCE = ("Model/Forest.lean (heap of nodes with stored contexts: cpy, appendCpy, setAt, delAt, SetValue, attach, storedPath) composed by "
                   "Driver/ForestDrv.lean ~ histories over several configs dumped after every step through VerifFingerprint (build tag verif): node "
                   "identities up to renaming, stored parents and names, values, Path(), Parent()")
